@@ -46,6 +46,19 @@ def inputs_for(bpt, tier):
         for b in seconds:
             if sum(1 for r in a[1] if r[0] == "F") == 2 and (full or sum(1 for r in b[1] if r[0] == "F") == 2):
                 out.append((a, b))
+    # scaffolds that begin with a gap (a FASTA record with leading Ns), and two gap rows in a row
+    for style in ("fasta", "tpf"):
+        for lead, dbl in ((3, False), (0, True), (2, True)):
+            rows = [("G", lead, "scaffold")] if lead else []
+            pos = lead
+            for i, ln in enumerate((2 * e + 1, e, 1)):
+                if i:
+                    seps_ = [("G", 2, "scaffold"), ("G", 3, "contig")] if (dbl and i == 1) else [("G", 2, "scaffold")]
+                    rows.extend(seps_)
+                    pos += sum(g[1] for g in seps_)
+                rows.append(("F", f"scaffold_1.c{i + 1}", 1, ln, 1) if style == "tpf" else ("F", "scaffold_1", pos + 1, pos + ln, 1))
+                pos += ln
+            out.append((("scaffold_1", tuple(rows)),))
     # an input scaffold without any contig (an all-N FASTA record) between / before scaffolds that have junctions
     for style in ("fasta", "tpf"):
         a = ("scaffold_1", pv.scaffold_rows(style, "scaffold_1", (2 * e + 1, e), ((("G", 2, "scaffold"),),), (1, 1)))
@@ -222,4 +235,4 @@ class C11(Check):
 
 CHECK = C11()
 # scope added in later rounds, kept in the evidence text
-CHECK.rule += ' Inputs with a scaffold that has no contig at all (gap only, 1 or 2E bases) before / between scaffolds with junctions.'
+CHECK.rule += ' Input scaffolds that begin with a gap, and with two gap rows in a row. Inputs with a scaffold that has no contig at all (gap only, 1 or 2E bases) before / between scaffolds with junctions.'
